@@ -1,40 +1,22 @@
 import PP.Extracted
 /-
 C14 tie: the write set of the functions reachable from Aggregate, ToHTML and
-the console writers.  Every write that goes through an index, selector or
-dereference targets a value created inside the same call (`fresh`: make, a
-composite literal, a local array, a call result), the two per-bucket counters
-owned by Aggregate's own map (`c.ids`, `c.first`), or the `data` map that
-ToHTML itself allocates and passes to toHTML.  Nothing is written through a
-receiver or a caller-supplied argument, and nothing reachable sorts or
-assigns into the snapshot.
+the console writers (`Extracted.stackWriteSet` / `internalWriteSet` list every
+write that goes through an index, selector or dereference, with the origin of
+its root variable).  Pinned is the part that matters: the writes whose root is
+NOT a value created inside the same call (`make`, a composite literal, a local
+array, a call result).  There are exactly two groups: the per-bucket counters
+owned by Aggregate's own map (`c.ids`, `c.first`, reached through a range
+variable over that map), and the `data` map that ToHTML allocates and hands to
+toHTML.  Nothing is written through a receiver or a caller-supplied snapshot,
+and nothing reachable sorts or assigns into the snapshot.  Refactorings that
+only change writes to freshly created values do not touch these pins.
 -/
 namespace PP.Tie
 
-theorem pin_stack_write_set : PP.Extracted.stackWriteSet = [
-    "Args.merge | out.Values[i] | fresh",
-    "Args.merge | out.Values[i].Fields | fresh",
-    "Args.merge | out.Values[i].IsAggregate | fresh",
-    "Args.merge | out.Values[i].IsPtr | fresh",
-    "Args.merge | out.Values[i].Name | fresh",
-    "Args.merge | out.Values[i].Value | fresh",
-    "Snapshot.Aggregate | *key | fresh",
-    "Snapshot.Aggregate | b[key] | fresh",
-    "Snapshot.Aggregate | b[newKey] | fresh",
-    "Snapshot.Aggregate | c.first | range",
-    "Snapshot.Aggregate | c.ids | range",
-    "Snapshot.Aggregate | order[bucket] | fresh",
-    "Snapshot.Aggregate | sort.Ints(c.ids) | range",
-    "Snapshot.Aggregate | sort.SliceStable(bs) | fresh",
-    "Stack.less | lLoc[c.Location] | fresh",
-    "Stack.less | rLoc[s.Location] | fresh",
-    "Stack.merge | out.Calls[i] | fresh",
-    "toHTML | data[\"Favicon\"] | param",
-    "toHTML | data[\"GOMAXPROCS\"] | param",
-    "toHTML | data[\"Now\"] | param",
-    "toHTML | data[\"Version\"] | param"] := by decide
+theorem pin_stack_non_fresh_writes : PP.Extracted.stackNonFreshWrites =
+    ["Snapshot.Aggregate | range", "toHTML | param"] := by decide
 
-theorem pin_internal_write_set : PP.Extracted.internalWriteSet = [
-    "Palette.StackLines | out[i] | fresh"] := by decide
+theorem pin_internal_non_fresh_writes : PP.Extracted.internalNonFreshWrites = [] := by decide
 
 end PP.Tie
